@@ -73,10 +73,12 @@ type cfgCase struct {
 	USize         *string     `json:"transport_url_size"`
 	UFreq         *string     `json:"transport_url_cleanup_frequency"`
 	UBucket       *string     `json:"transport_url_bucket_name"`
-	Junk          bool        `json:"misspelt_directive"`
-	ViaJSON       bool        `json:"via_json"`
-	Placeholders  int         `json:"placeholders"` // bit 0: HMAC key via {env.…}; bits 1,2: absent publisher / subscriber key written as a placeholder resolving to ""
-	Order         []int       `json:"order"`
+	// EnvURL: MERCURE_TRANSPORT_URL=bolt://<dir>/e.db?size=4 is in the process environment while the configuration is read
+	EnvURL       bool  `json:"env_transport_url,omitempty"`
+	Junk         bool  `json:"misspelt_directive"`
+	ViaJSON      bool  `json:"via_json"`
+	Placeholders int   `json:"placeholders"` // bit 0: HMAC key via {env.…}; bits 1,2: absent publisher / subscriber key written as a placeholder resolving to ""
+	Order        []int `json:"order"`
 }
 
 // quote: Caddyfile quoted strings do not interpret \n; backtick-quoted tokens keep newlines literally.
@@ -222,6 +224,8 @@ func (cs cfgCase) transportURL(dir string) string {
 	return base
 }
 
+func envTransportURL(dir string) string { return "bolt://" + dir + "/e.db?size=4" }
+
 // jsonRoundTrip: what encoding/json makes of a size that caddyconfig.JSONModuleObject re-encodes through a
 // map[string]any (float64) — a library as a parameter of the model, consulted from 2^53 on.
 func jsonRoundTrip(n uint64) string {
@@ -283,6 +287,12 @@ func (cs cfgCase) transportLine(dir string) string {
 			"ufreq="+h.Hex(q.Get("cleanup_frequency")), "ufreqarg="+floatWire(q.Get("cleanup_frequency")), "ubucket="+h.Hex(q.Get("bucket_name")))
 	} else {
 		f = append(f, "url=0")
+	}
+	if cs.EnvURL {
+		u, _ := url.Parse(envTransportURL(dir))
+		q := u.Query()
+		f = append(f, "env=1", "escheme="+h.Hex(u.Scheme), "eupath="+h.Hex(u.Path), "ehost="+h.Hex(u.Host), "eusize="+h.Hex(q.Get("size")),
+			"eufreq="+h.Hex(q.Get("cleanup_frequency")), "eufreqarg="+floatWire(q.Get("cleanup_frequency")), "eubucket="+h.Hex(q.Get("bucket_name")))
 	}
 
 	return h.Line(f...)
@@ -471,6 +481,7 @@ func main() {
 		bucketPool := []string{"updates", "b", "", "my bucket"}
 		cs.TPath = rr.Chance(3, 4)
 		cs.TBucket, cs.TSize, cs.TFreq = pickS(rr, bucketPool, 1, 3), pickS(rr, sizePool, 1, 2), pickS(rr, freqPool, 1, 2)
+		cs.EnvURL = rr.Chance(1, 4)
 		cs.UKind = h.Pick(rr, []string{"local", "bolt-abs", "bolt-abs", "bolt-rel", "bolt-rel", "bolt-nopath", "unknown"})
 		cs.UBucket, cs.USize, cs.UFreq = pickS(rr, bucketPool, 1, 3), pickS(rr, sizePool, 1, 2), pickS(rr, freqPool, 1, 2)
 		for k := 0; k < 12; k++ {
@@ -494,7 +505,13 @@ func main() {
 				}
 			}()
 			d := caddyfile.NewTestDispenser(text)
-			if err = m.UnmarshalCaddyfile(d); err != nil {
+			if cs.EnvURL {
+				os.Setenv("MERCURE_TRANSPORT_URL", envTransportURL(dir))
+				r.Count("MERCURE_TRANSPORT_URL set in the environment")
+			}
+			err = m.UnmarshalCaddyfile(d)
+			os.Unsetenv("MERCURE_TRANSPORT_URL")
+			if err != nil {
 				stage = "unmarshal"
 
 				return
@@ -576,6 +593,12 @@ func main() {
 			case *mercure.BoltTransport:
 				p, b, sz, fr := mercure.VerifBoltConfig(t)
 				impl += fmt.Sprintf(" | ok kind=bolt path=%s bucket=%s size=%d freq=%s", h.Hex(p), h.Hex(b), sz, h.Hex(strconv.FormatFloat(fr, 'g', -1, 64)))
+				// implementation alone: a transport that the configuration names is the one in effect, whatever the environment holds
+				if cs.EnvURL && cs.Transport != "default" && strings.HasSuffix(p, "/e.db") {
+					r.Violate(h.Violation{Key: "C19:environment-variable-overrides-the-configured-transport",
+						What:   fmt.Sprintf("the block configures its transport (%s) but the hub runs on %s, the value of MERCURE_TRANSPORT_URL:\n%s", cs.Transport, p, text),
+						Replay: rp})
+				}
 				r.Count("transport in effect: bolt")
 			case *mercure.LocalTransport:
 				impl += " | ok kind=local"
